@@ -49,6 +49,11 @@ func c03Run(c *Ctx) {
 		opts |= flags.HelpFlag
 	}
 	d := GenDecl(c.Sub("d"), c03Cfg(opts))
+	if c.K%17 == 13 {
+		// options registered late must be consumed, not conserved
+		histCase(c, d, []string{"late-group-on-command", "late-group-on-ancestor", "late-group-in-group"}, []string{"parse", "help"})
+		return
+	}
 	b := d.Build()
 	if b.Err != nil {
 		c.Violate("setup-error", "generated declaration rejected: %v", b.Err)
